@@ -73,9 +73,9 @@ def c15(run):
     run.batch("asan-sample", sample, "asan")
     # wide and tall shapes: the loops over complemented rows / columns have different bounds only there
     wide = []
-    for _ in range(1500 if quick else 30000):
-        a, b = rng.randint(1, 3), rng.randint(5, 8)
-        m, n = (a, b) if rng.random() < 0.5 else (b, a)
+    for _ in range(15000 if quick else 200000):
+        a, b = rng.choice((1, 2, 3, 3, 3)), rng.randint(5, 9)
+        m, n = (a, b) if rng.random() < 0.6 else (b, a)
         e = rand_mat(rng, m, n, (1,), rng.choice((0.3, 0.5, 0.7)))
         wide.append("ctu %d %s" % (DEFAULT_MASK, mat_tokens(m, n, e)))
     run.batch("ctu-wide-and-tall", wide, "plain")
@@ -516,13 +516,15 @@ def c05(run):
     run.batch("random+graph-instances", more, "asan")
     glued = []
     for _ in range(15000 if quick else 200000):
-        m, n, e = glued_cycle_matrix(rng, rng.choice((1, 2, 2, 3)))
+        m, n, e = glued_cycle_matrix(rng, rng.choice((1, 2, 2, 3, 4)))
+        w = "@want=yes "            # graphic by construction: beyond the oracle's size a 'no' is still decided
         if rng.random() < 0.35:
             k = rng.randrange(m * n); e[k] = 1 - e[k]          # mostly no longer graphic; a 'yes' is decided by its certificate at any size
+            w = ""
         if rng.random() < 0.5:
-            glued.append("graphic 0 1 0 %s" % mat_tokens(m, n, e))
+            glued.append("%sgraphic 0 1 0 %s" % (w, mat_tokens(m, n, e)))
         else:
-            glued.append("graphic 1 1 0 %s" % mat_tokens(n, m, [e[i * n + j] for j in range(n) for i in range(m)]))
+            glued.append("%sgraphic 1 1 0 %s" % (w, mat_tokens(n, m, [e[i * n + j] for j in range(n) for i in range(m)])))
     for _ in range(20000 if quick else 200000):
         m, n = rng.choice([(5, 4), (5, 5), (4, 5), (5, 6)])
         e = rand_mat(rng, m, n, (1,), rng.choice((0.4, 0.5, 0.6)))
@@ -574,18 +576,21 @@ def c06(run):
     run.batch("signings+digraph-instances", more, "asan")
     glued = []
     for _ in range(12000 if quick else 150000):
-        m, n, e = glued_cycle_matrix(rng, rng.choice((1, 2, 2, 3)), signed=True)
+        m, n, e = glued_cycle_matrix(rng, rng.choice((1, 2, 2, 3, 4)), signed=True)
         x = rng.random()
+        w = "@want=yes "
         if x < 0.25:
             nz = [k for k in range(m * n) if e[k]]
             if nz:
                 k = rng.choice(nz); e[k] = -e[k]                  # a wrong sign: support still graphic
+            w = ""
         elif x < 0.4:
             k = rng.randrange(m * n); e[k] = rng.choice([v for v in (-1, 0, 1) if v != e[k]])
+            w = ""
         if rng.random() < 0.5:
-            glued.append("network 0 1 %d %s" % (rng.randint(0, 1), mat_tokens(m, n, e)))
+            glued.append("%snetwork 0 1 %d %s" % (w, rng.randint(0, 1), mat_tokens(m, n, e)))
         else:
-            glued.append("network 1 1 %d %s" % (rng.randint(0, 1), mat_tokens(n, m, [e[i * n + j] for j in range(n) for i in range(m)])))
+            glued.append("%snetwork 1 1 %d %s" % (w, rng.randint(0, 1), mat_tokens(n, m, [e[i * n + j] for j in range(n) for i in range(m)])))
     run.batch("glued-3-connected-digraphs", glued, "plain")
     return dict(rule="network matrices of digraphs glued from 3-connected graphs, K4s, cycles and bonds with wrong signs / corrupted entries; "
                 "exhaustive: every {-1,0,1} matrix up to 3x3 (thorough 3x4, 4x<=3) through CMRnetworkTestMatrix and CMRnetworkTestTranspose "
@@ -738,6 +743,30 @@ def c08(run):
                     e[rs[a] * n + cs[b]] = 1 if (a == b or (a + 1) % 3 == b) else 0
         sample.append("sp %s %s %d -1 %s" % ("ter" if tern else "bin", rng.choice(("test", "dec")), rng.choice((15, 7, 31, 23, 1, 3)), mat_tokens(m, n, e)))
     run.batch("output-subsets+grown", sample, "asan")
+    # irreducible matrices with 2-separations: [[A, a b^T],[0, D]] (or transposed / with the rank-1 block below) from dense blocks;
+    # the wheel search has to recurse through rank-1 blocks
+    twosep = []
+    for _ in range(6000 if quick else 80000):
+        tern = rng.random() < 0.4
+        vals = (1, -1) if tern else (1,)
+        m1, n1, m2, n2 = rng.randint(2, 4), rng.randint(2, 4), rng.randint(2, 4), rng.randint(2, 4)
+        A = [[rng.choice(vals) if rng.random() < 0.75 else 0 for _ in range(n1)] for _ in range(m1)]
+        D = [[rng.choice(vals) if rng.random() < 0.75 else 0 for _ in range(n2)] for _ in range(m2)]
+        a = [rng.choice(vals) if rng.random() < 0.7 else 0 for _ in range(m1)]
+        b = [rng.choice(vals) if rng.random() < 0.7 else 0 for _ in range(n2)]
+        if not any(a): a[rng.randrange(m1)] = 1
+        if not any(b): b[rng.randrange(n2)] = 1
+        rows = [A[i] + [a[i] * b[j] for j in range(n2)] for i in range(m1)] + [[0] * n1 + D[i] for i in range(m2)]
+        if rng.random() < 0.5:
+            rows = [list(c) for c in zip(*rows)]
+        m, n = len(rows), len(rows[0])
+        rp = list(range(m)); cp = list(range(n))
+        if rng.random() < 0.7: rng.shuffle(rp); rng.shuffle(cp)
+        e = [rows[i][j] for i in rp for j in cp]
+        fn = rng.choice(("test", "test", "dec"))
+        o = rng.choice((9, 11, 13, 15, 8, 12)) | (16 if fn == "dec" and rng.random() < 0.5 else 0)
+        twosep.append("sp %s %s %d -1 %s" % ("ter" if tern else "bin", fn, o, mat_tokens(m, n, e)))
+    run.batch("two-separable-blocks", twosep, "plain")
     try:
         run.batch("forced-hash-collisions", sample[: len(sample) // 4] + rng.sample(lines, min(len(lines), 8000 if quick else 60000)), "hash",
                   args=("--op-timeout", "2"))
